@@ -35,6 +35,10 @@ __all__ = ['Maildir', 'Message', 'MailboxData', 'MailboxSet']
 
 class Maildir(_Maildir):
 
+    #: How often a file that vanished between being looked up and being
+    #: used is looked up again before it is reported missing.
+    _rename_retries = 5
+
     @property
     def _path_new(self) -> str:
         return self._paths['new']  # type: ignore
@@ -107,12 +111,23 @@ class Maildir(_Maildir):
 
         """
         msg = MaildirMessage()
-        subpath = self._lookup(key)
+        for _ in range(self._rename_retries):
+            subpath = self._lookup(key)
+            try:
+                mtime = os.path.getmtime(self._join(subpath))
+            except FileNotFoundError:
+                # renamed since it was looked up (a flag change by another
+                # session): look it up again instead of reporting it gone
+                continue
+            else:
+                break
+        else:
+            raise FileNotFoundError(key)
         subdir, name = self._split(subpath)
         msg.set_subdir(subdir)
         if self.colon in name:
             msg.set_info(name.rsplit(self.colon, 1)[-1])
-        msg.set_date(os.path.getmtime(self._join(subpath)))
+        msg.set_date(mtime)
         return msg
 
     def update_metadata(self, key: str, msg: MaildirMessage) -> None:
@@ -370,24 +385,31 @@ class MailboxData(MailboxDataInterface[Message]):
     async def update(self, uid: int, cached_msg: CachedMessage,
                      flag_set: frozenset[Flag], mode: FlagOp) -> Message:
         maildir = self._maildir
-        try:
-            record, maildir_msg = await self._get_maildir_msg(uid)
-        except (KeyError, FileNotFoundError):
-            msg = Message.copy_expunged(cached_msg)
-            msg.permanent_flags = mode.apply(msg.permanent_flags, flag_set)
-            return msg
-        key = record.key
-        email_id = self._get_object_id(record, 'E')
-        thread_id = self._get_object_id(record, 'T')
-        existing_flags = self.maildir_flags.from_maildir(
-            maildir_msg.get_flags())
-        new_flags = mode.apply(existing_flags, flag_set)
-        new_flags_str = self.maildir_flags.to_maildir(new_flags)
-        maildir_msg.set_flags(new_flags_str)
-        try:
-            maildir.update_metadata(key, maildir_msg)
-        except (KeyError, FileNotFoundError):
-            pass
+        for _ in range(maildir._rename_retries):
+            try:
+                record, maildir_msg = await self._get_maildir_msg(uid)
+            except (KeyError, FileNotFoundError):
+                msg = Message.copy_expunged(cached_msg)
+                msg.permanent_flags = mode.apply(
+                    msg.permanent_flags, flag_set)
+                return msg
+            key = record.key
+            email_id = self._get_object_id(record, 'E')
+            thread_id = self._get_object_id(record, 'T')
+            existing_flags = self.maildir_flags.from_maildir(
+                maildir_msg.get_flags())
+            new_flags = mode.apply(existing_flags, flag_set)
+            new_flags_str = self.maildir_flags.to_maildir(new_flags)
+            maildir_msg.set_flags(new_flags_str)
+            try:
+                maildir.update_metadata(key, maildir_msg)
+            except FileNotFoundError:
+                # the file was renamed by another session's flag change
+                # after its flags were read: start over from the new flags
+                continue
+            except KeyError:
+                pass
+            break
         return Message.from_maildir(
             uid, maildir_msg, maildir, key, email_id, thread_id,
             self.maildir_flags)
